@@ -3,80 +3,64 @@ import Qx.Proofs.C04
 # C04 — with TLS required, no credential or stanza is sent before the link is encrypted
 
 Property theorems only.  Model: `Qx/Model/C04Negotiation.lean` (the client negotiation machine as the code has it),
-helpers and the three named hypotheses: `Qx/Proofs/C04.lean`.
+helpers: `Qx/Proofs/C04.lean`.
 
 Reading aid.  `run (init cfg) script` feeds a script of events (server elements `recv …`, environment events, application
 calls) to a fresh client with configuration `cfg`; `.2` is everything the client did, in order: `Out.sent kind link`
 (`link = .clear` means: written to a connected socket that is not encrypted, i.e. readable on the wire) and signals.
 `o.clearOk` says: if `o` went over the wire in clear, it is a stream open, `<starttls/>` or a stream close.
 
-The full property — for EVERY server script nothing but those three is ever sent in clear — is false on today's code in
-two independent ways (`C04_defect_*`, each replayed on the real client by the harness).  What is proved is the statement
-under the two named hypotheses that exclude exactly those two ways.
+History.  Before the repository fixes e0bbad9 ("legacy authentication sends credentials in clear although TLS is required")
+and fa0779c ("stanzas received before STARTTLS are processed and answered in clear although TLS is required") the statement
+needed two more hypotheses (every header carries a version; no IQ request before encryption) and two defect theorems proved
+that it was false without them; the two witness scripts are kept below (and first in the harness corpus) with what they
+produce now.
 -/
 namespace Qx.C04
 
-/-- **The property, as far as it holds today (`…_partial`).**  TLS required.  For every script of any length in which
-(H1 `versionedHeader`) every stream header received on an unencrypted link carries a `version`,
-(H2 `noEarlyIqRequest`) no `<iq type=get|set>` is received on an unencrypted link, and
-(H3 `appWaits`, scope) the application itself neither sends requests over an unencrypted link nor calls `connectToServer`
-on a live connection:
-everything the client ever writes to an unencrypted wire is a stream open, `<starttls/>` or a stream close — no
-authentication exchange of any kind, no bind, no stanza.
-
-Full statement (FALSE today, see the two defect theorems): the same without H1 and H2. -/
-theorem tls_required_no_secret_before_encrypted_partial (cfg : Cfg) (hreq : cfg.tls = .required) (script : List Ev)
-    (h1 : Along versionedHeader (init cfg) script)
-    (h2 : Along noEarlyIqRequest (init cfg) script)
-    (h3 : Along appWaits (init cfg) script) :
+/-- **The property.**  TLS required.  For EVERY script of any length — every behaviour of the remote end: headers with or
+without version or id, any features, any sequence of authentication / bind / stream-management answers, IQ requests,
+messages, presences, stream errors, redirects, closes, connection losses — everything the client ever writes to an
+unencrypted wire is a stream open, `<starttls/>` or a stream close: no authentication exchange of any kind, no bind, no
+stanza.
+The only hypothesis (`appWaits`) is the application-side scope of the property, which quantifies over servers: the
+application itself does not send requests over an unencrypted link and calls `connectToServer` only while disconnected. -/
+theorem tls_required_no_secret_before_encrypted (cfg : Cfg) (hreq : cfg.tls = .required) (script : List Ev)
+    (happ : Along appWaits (init cfg) script) :
     ∀ o ∈ (run (init cfg) script).2, o.clearOk :=
-  run_safe script (init cfg) hreq (init_inv cfg) h1 h2 h3
+  run_safe script (init cfg) hreq (init_inv cfg) happ
 
-/-- Consequence in the words of the property: under the same hypotheses nothing that carries the password, a digest of it
-or the token is ever written to an unencrypted wire. -/
-theorem no_secret_in_clear_partial (cfg : Cfg) (hreq : cfg.tls = .required) (script : List Ev)
-    (h1 : Along versionedHeader (init cfg) script)
-    (h2 : Along noEarlyIqRequest (init cfg) script)
-    (h3 : Along appWaits (init cfg) script) :
+/-- In the words of the property: nothing that carries the password, a digest of it or the token is ever written to an
+unencrypted wire. -/
+theorem no_secret_in_clear (cfg : Cfg) (hreq : cfg.tls = .required) (script : List Ev)
+    (happ : Along appWaits (init cfg) script) :
     ∀ k, Out.sent k .clear ∈ (run (init cfg) script).2 → k.carriesSecret = false := by
   intro k hk
-  have h := tls_required_no_secret_before_encrypted_partial cfg hreq script h1 h2 h3 _ hk
+  have h := tls_required_no_secret_before_encrypted cfg hreq script happ _ hk
   cases k <;> simp_all [Out.clearOk, Kind.preTlsOk, Kind.carriesSecret]
 
-/-- witness (a): the server's stream header has no `version`; the client asks for the XEP-0078 fields at once and, when
-they are offered, sends the password digest — all before any `<starttls/>` -/
+/-- former witness (a): the server's stream header has no `version`, then the XEP-0078 fields are offered -/
 def witnessVersionless : List Ev :=
   [.connectToServer, .socketConnected, .recv (.header false true), .recv (.iq (.authFields true true))]
 
-/-- witness (b): an `<iq type='get'>` (e.g. jabber:iq:version) right after the header is answered in clear -/
+/-- former witness (b): an `<iq type='get'>` (e.g. jabber:iq:version) right after the header -/
 def witnessIqRequest : List Ev :=
   [.connectToServer, .socketConnected, .recv (.header true true), .recv (.iq (.get true))]
 
-/-- **Defect (a): a stream header without `version`.**  Even if the server never sends an IQ request (H2) and the
-application is passive (H3), the property fails: with the default configuration plus TLS required, the script
-`witnessVersionless` makes the client send the XEP-0078 query and then the password digest over the unencrypted link. -/
-theorem C04_defect_versionless_header :
-    ¬ (∀ (cfg : Cfg) (script : List Ev), cfg.tls = .required →
-        Along noEarlyIqRequest (init cfg) script → Along appWaits (init cfg) script →
-        ∀ o ∈ (run (init cfg) script).2, o.clearOk) := by
-  intro h
-  have hw := h { tls := .required } witnessVersionless rfl
-    ⟨trivial, trivial, trivial, trivial, trivial⟩ ⟨rfl, trivial, trivial, trivial, trivial⟩
-    (.sent (.nonSaslAuth false) .clear) (by decide)
-  simp [Out.clearOk, Kind.preTlsOk] at hw
+/-- **A version-less header makes the client give up, for every configuration that requires TLS**: it closes the stream and
+disconnects; the field offer that follows is not even read. -/
+theorem versionless_header_gives_up (cfg : Cfg) (hreq : cfg.tls = .required) (hns : cfg.useNonSasl = true) :
+    (run (init cfg) witnessVersionless).2 = [.sent .streamOpen .clear, .sent .streamClose .clear, .sig .disconnected] ∧
+    (run (init cfg) witnessVersionless).1.conn = .disconnected := by
+  simp [witnessVersionless, run, step, init, recv, handleStart, handleStream, hreq, hns, disconnectFromHost, socketClose,
+    onSocketDisconnected, closeSession, send, link, iqDones]
 
-/-- **Defect (b): an IQ request before encryption is answered in clear.**  Even if every header carries a version (H1) and
-the application is passive (H3), the property fails: `witnessIqRequest` makes the client send an IQ result (its software
-name, version and operating system for jabber:iq:version) over the unencrypted link. -/
-theorem C04_defect_iq_answered_in_clear :
-    ¬ (∀ (cfg : Cfg) (script : List Ev), cfg.tls = .required →
-        Along versionedHeader (init cfg) script → Along appWaits (init cfg) script →
-        ∀ o ∈ (run (init cfg) script).2, o.clearOk) := by
-  intro h
-  have hw := h { tls := .required } witnessIqRequest rfl
-    ⟨trivial, trivial, Or.inr rfl, trivial, trivial⟩ ⟨rfl, trivial, trivial, trivial, trivial⟩
-    (.sent (.iqReply false) .clear) (by decide)
-  simp [Out.clearOk, Kind.preTlsOk] at hw
+/-- **An IQ request before encryption is refused, not answered**: error, stream close, disconnect. -/
+theorem iq_request_before_tls_is_rejected (cfg : Cfg) (hreq : cfg.tls = .required) :
+    (run (init cfg) witnessIqRequest).2 =
+      [.sent .streamOpen .clear, .sig .error, .sent .streamClose .clear, .sig .disconnected] := by
+  simp [witnessIqRequest, run, step, init, recv, handleStart, handleStream, hreq, dispatch, idleHandle, El.isStanza, reject,
+    disconnectFromHost, socketClose, onSocketDisconnected, closeSession, send, link, iqDones]
 
 /-- **If encryption cannot be negotiated the client gives up and disconnects.**  TLS required; after ANY script that leaves
 the client connected, unencrypted, past the stream header and waiting for features: a features element without
@@ -98,7 +82,7 @@ theorem tls_unavailable_disconnects (cfg : Cfg) (script : List Ev) (f : Features
   exact tls_unavailable_core s f (by rw [hcfg]; exact hreq) hc he hh hw hl (run_red script (init cfg) rfl)
     (by rw [hcfg]; exact hf)
 
-/-! ### Non-vacuity: scripts that meet H1–H3, reach the encrypted phase and send a secret there -/
+/-! ### Non-vacuity: a script that meets the scope hypothesis, reaches the encrypted phase and sends a secret there -/
 
 /-- STARTTLS, SASL PLAIN over TLS, bind: the password travels, but only through TLS -/
 def goodScript : List Ev :=
@@ -107,10 +91,6 @@ def goodScript : List Ev :=
    .recv (.header true true), .recv (.features { mechs := some .plain }), .recv (.saslSuccess true),
    .recv (.header true true), .recv (.features { bind := true }), .recv (.iq (.bindResult .ok))]
 
-example : Along versionedHeader (init { tls := .required, plainOk := true }) goodScript := by
-  simp [goodScript, Along, versionedHeader]
-example : Along noEarlyIqRequest (init { tls := .required, plainOk := true }) goodScript := by
-  simp [goodScript, Along, noEarlyIqRequest]
 example : Along appWaits (init { tls := .required, plainOk := true }) goodScript := by
   simp [goodScript, Along, appWaits, init]
 
@@ -124,10 +104,10 @@ example : let s := (run (init { tls := .required }) [.connectToServer, .socketCo
     s.conn = .connected ∧ s.encrypted = false ∧ s.headerSeen = true ∧ s.wedged = false ∧ s.listener = .idle := by
   decide
 
-/-- what the two witnesses make the client do -/
-example : (run (init { tls := .required }) witnessVersionless).2 =
-    [.sent .streamOpen .clear, .sent .nonSaslQuery .clear, .sent (.nonSaslAuth false) .clear] := by decide
-example : (run (init { tls := .required }) witnessIqRequest).2 =
-    [.sent .streamOpen .clear, .sent (.iqReply false) .clear] := by decide
+/-- hostile scripts meet the scope hypothesis as well (it constrains the application, not the server) -/
+example : Along appWaits (init { tls := .required }) witnessVersionless := by
+  simp [witnessVersionless, Along, appWaits, init]
+example : Along appWaits (init { tls := .required }) witnessIqRequest := by
+  simp [witnessIqRequest, Along, appWaits, init]
 
 end Qx.C04
